@@ -19,9 +19,10 @@ def gen_flat(rng):
     d = gen.Desc()
     d.enums = gen.gen_enums(rng, rng.randint(0, 2))
     # enum names of every spelling (a type's kind is not to be guessed from the first letter of its name)
-    pool = rng.sample(["fan_mode", "ignition", "idle_state", "flags", "umode", "direction", "Status", "int_kind", "float_kind",
-                       "unit_sel", "Eco9"], len(d.enums))
-    d.enums = [(pool[k] if rng.random() < 0.6 else en, [(f"{pool[k]}_{vn}", v) for vn, v in es]) for k, (en, es) in enumerate(d.enums)]
+    # (a small pool, and most enums keep the generator's E0 / E1: same-named enums of other widths in the schemas one worker
+    # process sees one after the other stay frequent)
+    pool = rng.sample(["fan_mode", "ignition", "idle_state", "flags", "Status", "int_kind", "float_kind"], len(d.enums))
+    d.enums = [(pool[k] if rng.random() < 0.35 else en, [(f"{pool[k]}_{vn}", v) for vn, v in es]) for k, (en, es) in enumerate(d.enums)]
     enames = [e[0] for e in d.enums]
     extra = []
     d.msgs = []  # (binding name, struct name) in source order
